@@ -260,10 +260,11 @@ def eval_cases(prop, items, use_model, tag, timeout=900):
 
 
 def load_findings(pid):
-    p = os.path.join(VERIF, 'known_findings.json')
-    if not os.path.exists(p):
-        return []
-    return [f for f in json.load(open(p))['findings'] if f['property'] == pid]
+    out = []
+    for p in [os.path.join(VERIF, 'known_findings.json')] + sorted(glob.glob(os.path.join(VERIF, 'known_findings.d', '*.json'))):
+        if os.path.exists(p):
+            out.extend(f for f in json.load(open(p))['findings'] if f['property'] == pid)
+    return out
 
 
 def safe_run_impl(prop, case):
